@@ -136,11 +136,55 @@ pub fn child(a: &Args) {
     println!("HVDONE");
 }
 
+/// Experiment / finding probe: `index_payloads` (paxos.rs) when `p_max_slot` is present in EVERY tick
+/// (as it is in `paxos_core` while a proposer stays leader after recovering a non-empty log), with
+/// payloads arriving in several ticks. Prints the (slot, payload) pairs of every explored execution.
+pub fn slots_child() {
+    let mut flow = FlowBuilder::new();
+    let node = flow.process::<()>();
+    let tick = node.tick();
+    let (in_send, input_payloads) = node.sim_input();
+    let persistent_max = node
+        .source_iter(q!([123usize]))
+        .max()
+        .snapshot(&tick, nondet!(/** probe */));
+    let indexed = hydro_test::cluster::paxos::index_payloads(
+        persistent_max,
+        input_payloads.batch(&tick, nondet!(/** probe */)),
+    );
+    let out_recv = indexed.all_ticks().sim_output();
+    let n = flow.sim().exhaustive(async || {
+        in_send.send(1u32);
+        in_send.send(2u32);
+        in_send.send(3u32);
+        let got: Vec<(usize, u32)> = out_recv.collect().await;
+        println!("HVSLOTS {:?}", got);
+    });
+    println!("HVSLOTS-DONE {n}");
+}
+
 pub fn parent(rec: &mut Recorder, a: &Args, iters: u64, first_case: u64) {
     let exe = std::env::current_exe().expect("current_exe");
     // <target>/release/hv_proto -> <target>
     let target_dir = exe.parent().and_then(|p| p.parent()).expect("target dir").to_path_buf();
     let manifest_dir = env!("CARGO_MANIFEST_DIR");
+    // the simulator's nested cargo build must use the SAME toolchain as this binary (the dylib and this
+    // process exchange Rust types), and the dylib links libstd dynamically
+    let toolchain = option_env!("RUSTUP_TOOLCHAIN").unwrap_or("1.96.0");
+    let libdir = Command::new("rustc")
+        .args(["--print", "target-libdir"])
+        .env("RUSTUP_TOOLCHAIN", toolchain)
+        .output()
+        .ok()
+        .map(|o| String::from_utf8_lossy(&o.stdout).trim().to_owned())
+        .unwrap_or_default();
+    let ld = format!(
+        "{}:{}:{}:{}",
+        libdir,
+        target_dir.join("debug").display(),
+        target_dir.join("debug/deps").display(),
+        std::env::var("LD_LIBRARY_PATH").unwrap_or_default()
+    );
     let out = Command::new(&exe)
         .args(["c40-simchild", "--seed", &a.seed.to_string(), "--cases", &iters.to_string()])
         .current_dir(manifest_dir)
@@ -149,6 +193,8 @@ pub fn parent(rec: &mut Recorder, a: &Args, iters: u64, first_case: u64) {
         .env("RUSTFLAGS", "--cfg hydro_project_hydro_verif")
         .env("CARGO_NET_OFFLINE", "true")
         .env("HV_RAFT_TRACE", "1")
+        .env("RUSTUP_TOOLCHAIN", toolchain)
+        .env("LD_LIBRARY_PATH", ld)
         .env_remove("BOLERO_FUZZER")
         .stdin(Stdio::null())
         .stderr(Stdio::piped())
